@@ -191,9 +191,11 @@ type AggCfg struct {
 }
 
 type ServiceCase struct {
-	Persist bool    `json:"persist"`
-	Agg     *AggCfg `json:"agg,omitempty"`
-	Ops     []SOp   `json:"ops"`
+	Witness  bool    `json:"witness,omitempty"`  // a saved witness: no input class is avoided
+	NoSettle bool    `json:"nosettle,omitempty"` // do not wait for the deliveries after a collect step
+	Persist  bool    `json:"persist"`
+	Agg      *AggCfg `json:"agg,omitempty"`
+	Ops      []SOp   `json:"ops"`
 }
 
 var (
@@ -211,21 +213,11 @@ const serviceRule = "rapid: histories of collect/update/register-spec/deregister
 	"publish+log(+aggregate) handler specs with generated match expressions, queries after every step; " +
 	"non-trivial = some topic held >=2 event ids with different levels in unsorted insertion order AND at least one event was matched and one rejected by a match expression; distinct by case hash"
 
-func genService(t *rapid.T) ServiceCase {
-	var c ServiceCase
-	c.Persist = rapid.IntRange(0, 3).Draw(t, "persist") > 0
-	if rapid.IntRange(0, 11).Draw(t, "agg") == 11 {
-		a := &AggCfg{T: rapid.IntRange(0, 1).Draw(t, "aggT")}
-		if rapid.Bool().Draw(t, "aggMatch") {
-			a.Match = genMatch(t, 1)
-		}
-		c.Agg = a
-	}
-	n := rapid.IntRange(1, 30).Draw(t, "n")
-	for i := 0; i < n; i++ {
+func genSOp(persist bool) func(t *rapid.T) SOp {
+	return func(t *rapid.T) SOp {
 		op := SOp{T: rapid.SampledFrom([]int{0, 0, 0, 0, 0, 1, 1, 2}).Draw(t, "topic")}
 		k := rapid.IntRange(0, 99).Draw(t, "kind")
-		if !c.Persist && k >= 90 && k < 96 {
+		if !persist && k >= 90 && k < 96 {
 			k = 0 // close/restore only with persisted topics
 		}
 		switch {
@@ -245,6 +237,7 @@ func genService(t *rapid.T) ServiceCase {
 			op.K = "reg"
 		case k < 73:
 			op.K = "dereg"
+			op.H2 = rapid.IntRange(0, 2).Draw(t, "unknown") // 2: an id that may not be registered
 		case k < 80:
 			op.K = "upd"
 			op.H2 = rapid.IntRange(0, len(specIDs)-1).Draw(t, "h2")
@@ -252,6 +245,7 @@ func genService(t *rapid.T) ServiceCase {
 			op.K = "anon"
 		case k < 90:
 			op.K = "deanon"
+			op.H2 = rapid.IntRange(0, 2).Draw(t, "unknown") // 2: a handler that may not be registered
 		case k < 93:
 			op.K = "close"
 		case k < 96:
@@ -275,8 +269,24 @@ func genService(t *rapid.T) ServiceCase {
 		}
 		op.P = rapid.IntRange(0, len(svcPatterns)-1).Draw(t, "pattern")
 		op.M = rapid.IntRange(0, 3).Draw(t, "min")
-		c.Ops = append(c.Ops, op)
+		return op
 	}
+}
+
+func genService(t *rapid.T) ServiceCase {
+	var c ServiceCase
+	c.Persist = rapid.IntRange(0, 3).Draw(t, "persist") > 0
+	c.NoSettle = rapid.IntRange(0, 3).Draw(t, "nosettle") == 3
+	if rapid.IntRange(0, 11).Draw(t, "agg") == 11 {
+		a := &AggCfg{T: rapid.IntRange(0, 1).Draw(t, "aggT")}
+		if rapid.Bool().Draw(t, "aggMatch") {
+			a.Match = genMatch(t, 1)
+		}
+		c.Agg = a
+	}
+	// rapid prefers short slices: a drawn minimum length keeps long histories frequent, and shrinks away first
+	min := rapid.IntRange(1, 24).Draw(t, "minOps")
+	c.Ops = rapid.SliceOfN(rapid.Custom(genSOp(c.Persist)), min, 30).Draw(t, "ops")
 	return c
 }
 
@@ -302,18 +312,29 @@ func (v serviceView) topicStates(pattern string, min int) map[string]alert.Topic
 	return m
 }
 
-// Finding: Service.DeleteTopic removes the running topic together with the registrations of its handler
-// specs, but keeps the specs: they are still listed and stored, yet receive nothing until the daemon restarts.
-// While the finding is open the generator does not delete a topic that has handler specs.
+// Findings of this unit. While a finding is open its input class is avoided by construction (counted in the
+// evidence); saved witnesses carry "witness": true and are run as they are.
 const (
+	// Service.DeleteTopic removes the running topic together with the registrations of its handler specs, but
+	// keeps the specs: they are still listed and stored, yet receive nothing until the daemon restarts.
 	excludeDeleteWithSpecs = true
 	sigDeadAfterDelete     = "service/handler-spec-dead-after-delete-topic"
+	// UpdateHandlerSpec onto the id of another handler of the topic overwrites that handler's spec but leaves
+	// its handler registered: unlisted and not removable, it keeps receiving every event.
+	excludeUpdateOntoExistingID = true
+	sigOrphanAfterUpdate        = "service/orphan-handler-after-update-onto-existing-id"
+	// DeregisterHandlerSpec/UpdateHandlerSpec/CloseTopic/DeleteTopic/Close hold Service.mu while they wait for the
+	// handler's goroutine to drain its queue; a publish handler with a queued event needs Service.mu.RLock in
+	// Service.Collect: deadlock. Avoided by waiting for all deliveries before every step.
+	excludeDrainWhilePublishing = true
+	sigDrainDeadlock            = "service/deadlock-draining-publish-handler"
 )
 
 var svcRec *kit.Rec
 
 type mSpec struct {
 	topicDeleted bool // its topic was deleted while the spec was registered
+	orphan       bool // its id was taken over by an update of another handler
 	id           string
 	kind         string // publish | log | aggregate
 	match        MExpr
@@ -333,7 +354,19 @@ type srcTopic struct {
 	closedStates *mTopic
 }
 
+// specIDs lists the ids of the topic's generated handler specs (not the aggregate handler), sorted.
+func (st *srcTopic) specIDs() []string {
+	var ids []string
+	for _, id := range kit.SortedKeys(st.specs) {
+		if st.specs[id].kind != "aggregate" {
+			ids = append(ids, id)
+		}
+	}
+	return ids
+}
+
 type svcHarness struct {
+	witness  bool
 	x        *ctx
 	as       *salert.Service
 	dir      string
@@ -433,7 +466,9 @@ func (h *svcHarness) verifyLog(sp *mSpec) {
 		h.x.fail("harness/log", "open log: %v", err)
 		return
 	}
+	prevSeen := sp.logSeen
 	sp.logSeen = len(lines)
+	_ = prevSeen
 	obs := make([]got, len(lines))
 	for i, ad := range lines {
 		obs[i] = got{ID: ad.ID, Msg: ad.Message, Level: int(ad.Level), Prev: int(ad.PreviousLevel), Time: ad.Time.UnixNano(), Dur: ad.Duration}
@@ -445,6 +480,12 @@ func (h *svcHarness) verifyLog(sp *mSpec) {
 		}
 		if len(obs) > len(sp.logExp) {
 			sig = "delivery/unexpected"
+			if sp.closed && prevSeen == len(sp.logExp) {
+				sig = "delivery/after-deregistration"
+				if sp.orphan {
+					sig = sigOrphanAfterUpdate
+				}
+			}
 		}
 		h.x.fail(sig, "log handler %s (match %q) wrote %d events, %d expected\nexpected: %s\nobserved: %s", sp.id, sp.match.render(), len(obs), len(sp.logExp), fmtExp(sp.logExp), fmtObs(obs))
 		return
@@ -535,9 +576,33 @@ func (h *svcHarness) modelCollect(st *srcTopic, ev mEvent) {
 	}
 }
 
+func (h *svcHarness) pickTopic(sel int, pred func(*srcTopic) bool) *srcTopic {
+	for i := 0; i < len(srcNames); i++ {
+		if st := h.src[srcNames[(sel+i)%len(srcNames)]]; pred(st) {
+			return st
+		}
+	}
+	return h.src[srcNames[sel%len(srcNames)]]
+}
+
 func (h *svcHarness) apply(op SOp) {
 	x := h.x
 	st := h.src[srcNames[op.T%len(srcNames)]]
+	// steps that need something to act on prefer a topic that has it
+	switch op.K {
+	case "dereg":
+		if op.H2 != 2 {
+			st = h.pickTopic(op.T, func(t *srcTopic) bool { return len(t.specIDs()) > 0 })
+		}
+	case "upd":
+		st = h.pickTopic(op.T, func(t *srcTopic) bool { return len(t.specIDs()) > 0 })
+	case "deanon":
+		if op.H2 != 2 {
+			st = h.pickTopic(op.T, func(t *srcTopic) bool { return t.anon[0] != nil || t.anon[1] != nil })
+		}
+	case "restore":
+		st = h.pickTopic(op.T, func(t *srcTopic) bool { return t.closed })
+	}
 	name := st.name
 	mt := h.model[name]
 	x.label("op:" + op.K)
@@ -586,6 +651,9 @@ func (h *svcHarness) apply(op SOp) {
 		st.specs[id] = sp
 	case "dereg":
 		id := specIDs[op.H%len(specIDs)]
+		if ids := st.specIDs(); len(ids) > 0 && op.H2 != 2 {
+			id = ids[op.H%len(ids)]
+		}
 		sp := st.specs[id]
 		if err := h.as.DeregisterHandlerSpec(name, id); err != nil {
 			x.fail("spec/rejected", "DeregisterHandlerSpec(%s, %s) returned %v", name, id, err)
@@ -599,14 +667,22 @@ func (h *svcHarness) apply(op SOp) {
 		h.closeSpec(sp, "DeregisterHandlerSpec")
 	case "upd":
 		// API precondition (handlePutHandler/handlePatchHandler): the old spec exists
-		oldID, newID := specIDs[op.H%len(specIDs)], specIDs[op.H2%len(specIDs)]
-		old := st.specs[oldID]
-		if old == nil {
+		ids := st.specIDs()
+		if len(ids) == 0 {
 			x.label("update-spec-skipped")
 			return
 		}
+		oldID, newID := ids[op.H%len(ids)], specIDs[op.H2%len(specIDs)]
+		old := st.specs[oldID]
 		oldHS := h.handlerSpec(name, old)
 		other := st.specs[newID]
+		if newID != oldID && other != nil && excludeUpdateOntoExistingID && !h.witness {
+			x.label("excluded:update-spec-to-existing-id")
+			if svcRec != nil {
+				svcRec.Exclude("update-spec-to-existing-id")
+			}
+			return
+		}
 		nw := h.newSpec(name, newID, op.Kind, op.Match)
 		err := h.as.UpdateHandlerSpec(oldHS, h.handlerSpec(name, nw))
 		if newID != oldID && other != nil {
@@ -622,6 +698,10 @@ func (h *svcHarness) apply(op SOp) {
 			st.specs[newID] = nw
 			h.closeSpec(old, "UpdateHandlerSpec")
 			if !x.failed() {
+				other.orphan = true
+				if other.lg != nil {
+					other.lg.afterSig = sigOrphanAfterUpdate
+				}
 				h.closeSpec(other, "UpdateHandlerSpec onto its id")
 			}
 			return
@@ -646,6 +726,9 @@ func (h *svcHarness) apply(op SOp) {
 		h.as.RegisterAnonHandler(name, st.anon[s].rec)
 	case "deanon":
 		s := op.H % anonSlots
+		if st.anon[s] == nil && st.anon[(s+1)%anonSlots] != nil && op.H2 != 2 {
+			s = (s + 1) % anonSlots
+		}
 		lg := st.anon[s]
 		if lg == nil {
 			h.as.DeregisterAnonHandler(name, &recorder{name: "never-registered", topic: name})
@@ -684,7 +767,7 @@ func (h *svcHarness) apply(op SOp) {
 		}
 	case "delete":
 		if len(st.specs) > 0 {
-			if excludeDeleteWithSpecs {
+			if excludeDeleteWithSpecs && !h.witness {
 				// known finding service/handler-spec-dead-after-delete-topic: avoided by construction
 				x.label("excluded:delete-topic-with-handler-specs")
 				if svcRec != nil {
@@ -708,6 +791,13 @@ func (h *svcHarness) apply(op SOp) {
 		st.closed, st.closedStates = false, nil
 		h.dropAnon(st, "DeleteTopic")
 	}
+}
+
+func afterSig(lg *ledger) string {
+	if lg.afterSig != "" {
+		return lg.afterSig
+	}
+	return "delivery/after-deregistration"
 }
 
 func (sp *mSpec) lgClose() {
@@ -753,7 +843,7 @@ func (h *svcHarness) settle() {
 	for _, lg := range h.ledgers {
 		if lg.closed {
 			if n := lg.rec.count(); n != lg.verified {
-				h.x.fail("delivery/after-deregistration", "%s was handed %d more events after its handler's registration had ended\nobserved: %s", lg.rec.name, n-lg.verified, fmtObs(lg.rec.snapshot()))
+				h.x.fail(afterSig(lg), "%s was handed %d more events after its handler's registration had ended\nobserved: %s", lg.rec.name, n-lg.verified, fmtObs(lg.rec.snapshot()))
 				return
 			}
 			continue
@@ -840,7 +930,7 @@ func (h *svcHarness) finish() {
 	for _, lg := range h.ledgers {
 		if lg.closed {
 			if n := lg.rec.count(); n != lg.verified {
-				x.fail("delivery/after-deregistration", "%s was handed %d more events after its handler's registration had ended\nobserved: %s", lg.rec.name, n-lg.verified, fmtObs(lg.rec.snapshot()))
+				x.fail(afterSig(lg), "%s was handed %d more events after its handler's registration had ended\nobserved: %s", lg.rec.name, n-lg.verified, fmtObs(lg.rec.snapshot()))
 				return
 			}
 			continue
@@ -858,7 +948,11 @@ func (h *svcHarness) finish() {
 				return
 			}
 			if sp.logSeen != seen {
-				x.fail("delivery/after-deregistration", "log handler %s wrote %d more events after it was deregistered", sp.id, sp.logSeen-seen)
+				sig := "delivery/after-deregistration"
+				if sp.orphan {
+					sig = sigOrphanAfterUpdate
+				}
+				x.fail(sig, "log handler %s wrote %d more events after it was deregistered", sp.id, sp.logSeen-seen)
 				return
 			}
 		}
@@ -908,7 +1002,17 @@ func runService(c ServiceCase, cc *kit.Case) {
 			return
 		}
 		closed := false
-		h := &svcHarness{x: x, as: as, dir: dir, model: map[string]*mTopic{}, src: map[string]*srcTopic{}}
+		noSettle := c.NoSettle
+		if noSettle && excludeDrainWhilePublishing && !c.Witness {
+			noSettle = false
+			if svcRec != nil {
+				svcRec.Exclude("step-while-publish-handler-has-queued-events")
+			}
+		}
+		if noSettle {
+			x.label("no-settle")
+		}
+		h := &svcHarness{witness: c.Witness, x: x, as: as, dir: dir, model: map[string]*mTopic{}, src: map[string]*srcTopic{}}
 		defer func() {
 			if !closed {
 				// failed case: stop the aggregate goroutine and the topics
@@ -945,6 +1049,17 @@ func runService(c ServiceCase, cc *kit.Case) {
 			h.apply(op)
 			if x.failed() {
 				return
+			}
+			x.at("after #%d %s", i, fmtSOp(op))
+			if noSettle && op.K == "collect" {
+				// handlers may still be busy: only the source topics have a determined state now
+				for _, name := range srcNames {
+					checkTopic(x, serviceView{as}, name, h.model[name], eventIDs)
+				}
+				if x.failed() {
+					return
+				}
+				continue
 			}
 			h.settle()
 			if x.failed() {
